@@ -488,10 +488,28 @@ impl St {
                     } else {
                         None
                     }
-                } else if ready {
-                    Some(lowest)
                 } else {
-                    None
+                    // default policy = the model's: the lowest task that has not ended runs; if it
+                    // has not begun yet (late start-up under load) wait for it
+                    match (0..self.expected).find(|t| !self.ended_set.contains(t)) {
+                        Some(t) if self.waiting.contains_key(&t) => {
+                            *stuck = 0;
+                            Some(t)
+                        }
+                        Some(_) if force && ready => {
+                            *stuck += 1;
+                            if *stuck > 100 {
+                                *stuck = 0;
+                                if self.anomalies.len() < 8 {
+                                    self.anomalies.push("sched-stuck".into());
+                                }
+                                Some(lowest)
+                            } else {
+                                None
+                            }
+                        }
+                        _ => None,
+                    }
                 }
             }
             Policy::Explore(ex) => {
@@ -749,17 +767,29 @@ fn run_real(inst: &Inst, on_hang: impl FnOnce()) -> Outcome {
         Caught::Panic(m) => Outcome::Panic(m),
         Caught::Hang => Outcome::Hang,
     };
-    match recv_patient(&rx, 30) {
+    // the cost of a run grows with vertices x parts (gain loop), hooks included
+    let k = usize::max(8, 1 + inst.parts.iter().cloned().max().unwrap_or(0));
+    let guard = 30 + (inst.n * k / 20_000) as u64;
+    match recv_patient(&rx, guard) {
         Some(r) => conv(r),
         None => {
             on_hang();
-            match recv_patient(&rx, 5) {
+            match recv_patient(&rx, 60) {
                 Some(Caught::Panic(m)) => Outcome::Panic(m),
-                _ => Outcome::Hang,
+                Some(_) => Outcome::Hang,
+                None => {
+                    // the call is still running: the hooks keep the base addresses of the lock and
+                    // partition arrays in globals, so no other ArcSwap call may start in this process
+                    ZOMBIE.store(true, std::sync::atomic::Ordering::SeqCst);
+                    Outcome::Hang
+                }
             }
         }
     }
 }
+
+/// Set when an ArcSwap call had to be abandoned while still running (see `run_real`).
+static ZOMBIE: std::sync::atomic::AtomicBool = std::sync::atomic::AtomicBool::new(false);
 
 struct CtlRun {
     out: Outcome,
@@ -995,6 +1025,10 @@ fn oracle(inst: &Inst, md: &MdVals, out: &[usize], trace: Option<&[(usize, Ev)]>
 
 pub fn run_op(ctx: &mut Ctx, op: &str) {
     if ctx.hang_limit_reached() {
+        return;
+    }
+    if ZOMBIE.load(std::sync::atomic::Ordering::SeqCst) {
+        ctx.count("not_run_after_abandoned_call");
         return;
     }
     let secs = sections(op);
@@ -1426,9 +1460,23 @@ fn large_stream(ctx: &mut Ctx) {
             let rowlen = *ctx.rng.pick(&[4096usize, 8192, 64, 265, 1000, 1]);
             let threads = pools[(j + 2 * rep + ctx.rng.usize(6)) % 6];
             let imb = imbs[(j + rep) % 3];
-            let k = ks[ctx.rng.usize(ks.len())];
+            let mut k = ks[ctx.rng.usize(ks.len())];
             // block-aligned / pre-sorted id layouts as well as random ones
-            let pshape = if imb.is_some() && ctx.rng.chance(1, 4) { 5 } else { ctx.rng.usize(5) };
+            let mut pshape = if imb.is_some() && ctx.rng.chance(1, 4) { 5 } else { ctx.rng.usize(5) };
+            // the gain loop costs (vertices on the cut) x parts x degree: 64 parts with any layout up to
+            // 8193 vertices, above on grids with block-aligned / contiguous layouts (short boundaries)
+            let mut shape = shape;
+            if (n == 65537 + 11 || (n <= 20_001 && j % 2 == 1)) && rep == 0 {
+                k = 64;
+            }
+            if k == 64 && n > 9000 {
+                if n > 70_001 {
+                    k = 8;
+                } else {
+                    shape = "grid";
+                    pshape = 2 + ctx.rng.usize(2);
+                }
+            }
             let wmode = ctx.rng.usize(4);
             let seed = ctx.rng.next() >> 1;
             ctx.count(&format!("large:n={}", n));
